@@ -136,6 +136,7 @@ def _c13():
     out = class_c.names('validate') + class_c.names('init')
     out += [('pamqp.base.Frame.marshal[%s]' % n, {'invalid-arguments', 'encoded'}) for n in tables.VALIDATING]
     out += [('pamqp.base.Frame.unmarshal[%s]' % n, {'grammar-valid-arguments'}) for n in tables.VALIDATING]
+    out += [BPN + 'validate', 'pamqp.commands.Basic.Properties.__init__', (BPN + 'unmarshal', {'grammar-valid-properties'})]
     return out
 
 
@@ -144,7 +145,8 @@ def _c04():
     return (ENC_PRIM + [FRM + '_marshal', FRM + 'marshal', FRM + '_marshal_content_body_frame',
                         'pamqp.header.ProtocolHeader.marshal', 'pamqp.heartbeat.Heartbeat.marshal',
                         'pamqp.body.ContentBody.marshal']
-            + class_c.names('marshal') + mf.names('marshal_method_frame') + mf.names('frame_marshal'))
+            + class_c.names('marshal') + mf.names('marshal_method_frame') + mf.names('frame_marshal')
+            + [BPN + 'marshal', CHN + 'marshal', FRM + '_marshal_content_header_frame', FRM + 'marshal[ContentHeader]'])
 
 
 def _c01():
@@ -159,7 +161,10 @@ def _c05():
     class_c, mapping_c, mf = _names()
     return (DEC_PRIM + [FRM + 'frame_parts', (FRM + 'unmarshal', UNMARSHAL_RETURNS)]
             + [(n, {'grammar-valid-arguments'}) for n in class_c.names('unmarshal')]
-            + [(n, {'method'}) for n in mf.names('unmarshal_method_frame')[:-1]] + mf.names('unmarshal_g'))
+            + [(n, {'method'}) for n in mf.names('unmarshal_method_frame')[:-1]] + mf.names('unmarshal_g')
+            + [(BPN + 'unmarshal', {'grammar-valid-properties'}), (CHN + 'unmarshal', {'grammar-valid-header'}),
+               (CHN + '_get_flags', {'one-flag-word', 'two-flag-words'}), (FRM + '_unmarshal_header_frame', {'content-header'}),
+               FRM + 'unmarshal(g)[ContentHeader]'])
 
 
 def _c09():
@@ -167,7 +172,10 @@ def _c09():
     return (DEC_PRIM + [FRM + 'frame_parts', FRM + '_unmarshal_protocol_header_frame', FRM + '_unmarshal_body_frame',
                         (FRM + 'unmarshal', UNMARSHAL_RAISES | {'method', 'content-header'})]
             + [(n, {'anything-else'}) for n in class_c.names('unmarshal')]
-            + mf.names('unmarshal_method_frame'))
+            + mf.names('unmarshal_method_frame')
+            + [(BPN + 'unmarshal', {'anything-else'}), (CHN + 'unmarshal', {'anything-else'}),
+               (CHN + '_get_flags', {'three-or-more-flag-words', 'flag-words-cut-short'}), FRM + '_unmarshal_header_frame',
+               CHN + '__init__', 'pamqp.commands.Basic.Properties.__init__'])
 
 
 BPN = 'pamqp.base.BasicProperties.'
@@ -208,7 +216,7 @@ PROPS = {
     'C01': PropSpec('C01', contracts=_c01(), lemmas=_names()[2].names('roundtrip'), floor=3000),
     'C05': PropSpec('C05', contracts=_c05(), floor=1500),
     'C09': PropSpec('C09', contracts=_c09(), floor=1000),
-    'C06': PropSpec('C06', contracts=FRAME_ENV + [(FRM + 'unmarshal', UNMARSHAL_RETURNS | {'bad-frame-end', 'heartbeat-incomplete-or-bad-end'}), FRM + 'unmarshal(env)'], lemmas=[L + 'c06_trailing_bytes'], floor=200,
+    'C06': PropSpec('C06', contracts=FRAME_ENV + [CHN + '__init__', (FRM + '_unmarshal_header_frame', {'content-header'}), (FRM + 'unmarshal', UNMARSHAL_RETURNS | {'bad-frame-end', 'heartbeat-incomplete-or-bad-end'}), FRM + 'unmarshal(env)'], lemmas=[L + 'c06_trailing_bytes'], floor=200,
                     assumptions=['method and content-header payload decoders enter through their total contracts '
                                  '(any frame object of the right kind, or UnmarshalingException)']),
     'C07': PropSpec('C07', contracts=FRAME_ENV + [(FRM + 'unmarshal', UNMARSHAL_INCOMPLETE), FRM + 'unmarshal(env)'], lemmas=[L + 'c07_prefix'], floor=200),
